@@ -544,11 +544,17 @@ def run(ctx):
         nrows["opt_tight"] += int(tight)
         nrows["hard"] += sum(int(r[3]) for r in v if r[2] == "ineq-rows")
         nrows["ineq_calls"] += sum(1 for r in v if r[2] == "ineq-backeq")
+        nrows["sign_restricted"] = nrows.get("sign_restricted", 0) + int(sum(r[6] for r in v if r[2] == "ineq-sign-use"))
+        nrows["sign_restricted_moved"] = nrows.get("sign_restricted_moved", 0) + int(sum(r[5] for r in v if r[2] == "ineq-sign-use"))
         nrows["cl1_kode0_infeasible_answers"] = nrows.get("cl1_kode0_infeasible_answers", 0) + sum(1 for r in v if r[2] == "ineq-cl1-feasible" and r[5] == 0.0)
         nrows["cl1_kode0_sign_violations"] = nrows.get("cl1_kode0_sign_violations", 0) + sum(1 for r in v if r[2] == "ineq-cl1-signs" and r[5] == 0.0)
         if tot >= 5 and tight < 0.8 * tot:
             probe_fail.append((i, ("T", "-", "ineq-opt-rows", "0", False, tight, tot)))
     ctx.cov["ineq_rows_checked"] = nrows
+    # absent supersaturated phases carry the sign restriction "may only precipitate": in 55–75 % of the crafted states cl1
+    # makes them precipitate (x < 0); a restriction with the wrong sign would leave all of them at 0
+    if nrows.get("sign_restricted", 0) >= 40 and nrows["sign_restricted_moved"] < 0.25 * nrows["sign_restricted"] and pids:
+        probe_fail.append((pids[0], ("T", "-", "ineq-sign-use", "0", False, float(nrows["sign_restricted_moved"]), float(nrows["sign_restricted"]))))
     hist = {"db": {}, "n_phases": {}, "phase_opts": {}, "temp": {"0-15": 0, "15-35": 0, "35-70": 0, "70-100": 0}, "with_exchange": {},
             "with_surface": 0, "with_ss": {}, "stages": {}, "not_completed": 0, "crashed": 0, "errors": {}, "phase_states": {},
             "relations": {}, "calcs": 0, "warn_local_minimum": 0, "target_si": {"0": 0, "neg": 0, "pos": 0},
@@ -779,19 +785,24 @@ def replay(ctx, data):
 MANIFEST = dict(
     technique="Lean 4 theorems on an executable model of model()'s remove_unstable_phases loop, the PP / SS_MOLES / EXCH / SURFACE "
               "rows of residuals and check_residuals, ineq's phase-removal case, the pure-phase part of reset, ss_ideal / ss_binary / "
-              "ss_calc_a0_a1; correspondence: the model re-evaluates in-process dumps of real runs and crafted calls of the real functions",
+              "ss_calc_a0_a1, and the rows ineq() hands to cl1 (optimisation / equality / inequality rows, sign restrictions, zeroed columns); "
+              "correspondence: the model re-evaluates in-process dumps of real runs and crafted calls of the real functions",
     text="Theorems (Properties/C03.lean, for all inputs/histories, over Rat with uninterpreted ln): model_ok_rows / "
          "model_ok_pp_admissible(_dissolve) (ANY loop body, any iteration count: model() completes without error ⇒ every pure phase lies in "
          "the admissible region of its residual branch), model_ok_phases_valid(_all) (⇒ ValidPhase at 1e-6 when 100·tol ≤ 1e-6·ln10), "
          "restrictions_respected (reset() keeps 0 ≤ moles and dissolve_only ⇒ moles ≤ initial for ANY cl1 answer), precipitate_only_respected, "
          "remove_unstable_exact, ssIdeal_simplex (fractions > 0, sum = 1), ss_ideal_activity (gate ⇒ SI = log10 x), ssBinary_fractions, "
-         "guggenheim_excess / guggenheim_gibbs_duhem / guggParams_forms, exchange_capacity, surface_sites, runModel_invariant; non-vacuity "
+         "guggenheim_excess / guggenheim_gibbs_duhem / guggParams_forms, exchange_capacity, surface_sites, runModel_invariant, "
+         "ineq_rows_keep_restrictions (ANY vector satisfying the pure-phase inequality rows and sign restrictions that ineq() writes keeps "
+         "0 ≤ moles and dissolve_only ⇒ moles ≤ initial), ppIneqRows_mem, feasible_no_scaling; non-vacuity "
          "examples. Obligation over generated data: pmodel assemblage (same definitions on Float) on each completed reaction calculation of "
          "seeded runs: ValidPhase(1e-6) from the engine's la/lk/moles, Σ exchange species = capacity and Σ surface species = sites (1e-8), "
          "fractions ≥ 0 summing to 1, ideal component SI = log10 x; Python direct oracle of the same statements on SELECTED_OUTPUT / USER_PUNCH "
          "EQUI SI S_S SYS / DUMP. Correspondence: f, IAP, residual of every PP/SS/EXCH/SURFACE row, fractions, log10 lambda, a0/a1; the gate "
          "model accepts every state the code accepted; probes: the real residuals / check_residuals / ineq / reset answer as the model does "
-         "on crafted (f, moles, delta) around every threshold.",
+         "on crafted (f, moles, delta) around every threshold; ineq(1) is called on the crafted states and cl1's answer ties the row model: "
+         "back_eq = the model's row sources in order, residual of every one-entry inequality row = rhs − c·x_i (1e-12), ≥ 80 % of the dense "
+         "rows per case reproduce to 1e-5 relative, restricted variables take the allowed sign.",
     note="Trusted: Lean kernel; harness/ph_assemblage.cpp (friend access, BASIC CALLBACK at punch time, crafted calls with state restored); "
          "tools/props/c03.py; libm. Partial: the inequality solver (ineq's matrix set-up, cl1) is an oracle of the model — its answers are "
          "constrained only through reset() and the gate; gases in EQUILIBRIUM_PHASES are not generated (the property speaks of minerals); "
